@@ -263,6 +263,7 @@ func doTakeSnapshot(fsm *stateMachine, index uint64, config Config) (snapshotMet
 	}
 	resp := req.Result().(fsmSnapResp)
 	defer resp.state.Release()
+	verifPoint("takeSnapshot.captured", fsm.snaps.dir)
 	if resp.config.Index > 0 {
 		// config in force at resp.index. the config captured when the request was
 		// accepted can be older, if a config got committed and applied meanwhile
